@@ -114,7 +114,8 @@ PROFILES = {
                    p_soc_bias=0.3),
     "C20": profile(p_callback=1.0, p_scale=0.4, p_fixed=0.4, p_bounds=0.8, p_inconsistent=0.0, p_all_fixed=0.0,
                    p_filter=0.5, p_nonlinear=0.6),
-    "C11": profile(p_callback=0.5, p_inconsistent=0.02, p_no_options=0.4, n_weights=[(3, 1), (5, 2), (4, 3), (1, 4)]),
+    "C11": profile(p_callback=0.5, p_inconsistent=0.02, p_no_options=0.4, n_weights=[(3, 1), (5, 2), (4, 3), (1, 4)],
+                   p_options_numpy=0.3),
     "C12": profile(p_nonlinear=0.8, p_callback=0.1, p_inconsistent=0.0, p_all_fixed=0.0, maxfev_hi=140,
                    p_soc_bias=0.2),
     "C18": profile(p_wide_radii=0.35, p_constants=0.6, p_callback=0.1, p_inconsistent=0.0, p_all_fixed=0.0,
@@ -262,6 +263,22 @@ def faulted_case(prop, seed, idx, tier, step_cap=None):
     plan = scenario.gen_fault_plan(rf, stmt2, _nevals(base), base.ctx.linalg_calls.get("eigh", 0), level=level)
     if prop == "C08" and idx % 16 == 5:
         enumerate_single_faults(stmt, base, cr, props, st)
+    if prop == "C08" and (not consistent(stmt) or n_free_of(stmt) == 0):
+        # degenerate bounds: the single evaluation happens while the result is built; enumerate what can meet there
+        for kind in (None, "nan", "pinf", "ninf", "huge"):
+            for stop in (False, True):
+                s3 = copy.deepcopy(stmt)
+                if stop:
+                    s3["callback"] = s3.get("callback") or {"style": "pos", "mutate": False}
+                    s3["callback"]["stop_at"] = 1
+                for tgt in (scenario.gen_targets(s3)[:2] if kind else [None]):
+                    plan3 = [{"kind": kind, "target": tgt, "when": {"at": 1}}] if kind else []
+                    r3 = run_client(s3, plan3)
+                    cr.account(r3, nontrivial_needs_fault=False)
+                    cr.cut_points += 1
+                    st["c08.degenerate_combos"] += 1
+                    if not r3.harness_error:
+                        cr.add_viols(apply_props(r3, props, st), payload_world(s3, plan3, props))
     if prop == "C08" and step_cap is None and idx % 32 == 7:
         step_cap = STEP_CAP          # exercise the bounded-progress tracer on a sample of worlds
     if plan or stmt2 is not stmt or step_cap:
